@@ -199,7 +199,14 @@ func panicTopFrame(stderr string) (string, string) {
 	}
 	frame := ""
 	// first goroutine block after the panic: the panicking goroutine
+	seenGoroutine := false
 	for _, l := range lines {
+		if strings.HasPrefix(l, "goroutine ") {
+			if seenGoroutine {
+				break
+			}
+			seenGoroutine = true
+		}
 		l = strings.TrimSpace(l)
 		if strings.HasPrefix(l, "github.com/jirenius/go-res") {
 			if i := strings.LastIndex(l, "("); i > 0 {
